@@ -720,10 +720,15 @@ class Lookup(Monitor):
         t, y = snap["t"], snap["y"]
         n = snap["n"]
         # integer indices like a sequence
+        # (the integer is handed over as a Python int or - what numpy's own searches and reductions return - as a numpy integer; which
+        # form is used for which index follows from the scenario, not from a draw at run time)
+        forms = (int, np.int64, int, np.int32, np.intp, np.uint8)
         for idx in range(-n - 2, n + 3):
             want_err = not (-n <= idx < n)
+            form = forms[(idx + i + world.scn.get("seed", 0)) % len(forms)]
+            key = idx if (form is np.uint8 and not (0 <= idx < 256)) else form(idx)
             try:
-                got = sysm[idx]
+                got = sysm[key]
                 err = None
             except IndexError:
                 got, err = None, "IndexError"
@@ -731,14 +736,14 @@ class Lookup(Monitor):
                 got, err = None, type(e).__name__
             if want_err:
                 if err != "IndexError":
-                    world.violate(P, P + ".index_out_of_range", "index %d on %d rows: expected IndexError, got %s" % (idx, n, err or "a value"))
+                    world.violate(P, P + ".index_out_of_range", "index %r (%s) on %d rows: expected IndexError, got %s" % (idx, type(key).__name__, n, err or "a value"))
                     break
             else:
                 if err is not None:
-                    world.violate(P, P + ".index_value", "index %d on %d rows raised %s" % (idx, n, err))
+                    world.violate(P, P + ".index_value", "index %r (%s) on %d rows raised %s" % (idx, type(key).__name__, n, err))
                     break
                 if not (bitwise_equal(got.t, t[idx]) and bitwise_equal(got.y, y[idx])):
-                    world.violate(P, P + ".index_value", "index %d returned t=%r, expected row %d t=%r" % (idx, _f(got.t), idx % n, _f(t[idx])))
+                    world.violate(P, P + ".index_value", "index %r (%s) returned t=%r, expected row %d t=%r" % (idx, type(key).__name__, _f(got.t), idx % n, _f(t[idx])))
                     break
         # iteration
         try:
